@@ -4,13 +4,14 @@
   Determinism of the model is by construction (everything is a function); for the implementation it is part of the
   correspondence (every scenario is run twice in separate processes and must print identical traces).
 
-  Non-interference is proved here at the level of one action evaluation and of the consumption it performs (the
-  simulation relation `Agree` and its preservation); its lifting over arbitrary interleavings of K- and D-groups in
-  the registry is the remaining step and is *not* proved (see `noninterference_registry_partial` in DESIGN.md §5 C17);
-  the pairwise run comparison of the check covers that composition on the explored scenarios.
+  Non-interference is proved as a simulation: first for one action evaluation and the consumption it performs
+  (`Agree`), then lifted over context instances, groups and the whole registry for arbitrary interleavings of kept and
+  deleted (input-disjoint) context types (`registry_noninterference`). The pairwise run comparison of the check
+  exercises the same statement on the real crate.
 -/
 import BEI.Props.C05
 import BEI.Props.C12
+import BEI.Proofs.Reg
 namespace BEI.Props.C17
 open BEI
 
@@ -142,5 +143,493 @@ theorem deterministic (su : Setup) (st : AppState) (raw : RawInput) (t : Tick) (
   rw [h1] at h2
   cases h2
   exact ⟨rfl, rfl⟩
+
+/-! ## lifting the simulation over context instances, groups and the whole registry -/
+
+/-- `i`, consumed while the reader's gamepad selection was `dev`, masks `j` when read under selection `d` -/
+def hidesAt (dev d : Device) (i j : Input) : Bool :=
+  match i, j with
+  | .padBtn b, .padBtn b' => b == b' && dev == d
+  | .padAxis x, .padAxis x' => x == x' && dev == d
+  | _, _ => C05.hides i j
+
+theorem setGamepad_setGamepad (r : Reader) (d d' : Device) : (r.setGamepad d).setGamepad d' = r.setGamepad d' := rfl
+theorem setGamepad_self (r : Reader) : r.setGamepad r.device = r := rfl
+
+/-- reading `j` under selection `d` after `i` was consumed under the reader's own selection -/
+theorem value_after_consume (r : Reader) (i j : Input) (d : Device) :
+    ((r.consume i).setGamepad d).value j =
+      (if hidesAt r.device d i j then C05.inactive j else (r.setGamepad d).value j) := by
+  by_cases hdev : r.device = d
+  · -- same selection: consuming commutes with selecting, and `hidesAt` is `hides`
+    have hcomm : (r.consume i).setGamepad d = (r.setGamepad d).consume i := by
+      subst hdev; cases i <;> rfl
+    have hh : hidesAt r.device d i j = C05.hides i j := by
+      subst hdev
+      cases i <;> cases j <;> simp [hidesAt, C05.hides, C05.sameSource, C05.modsOf, ModKeys.intersects]
+    rw [hcomm, hh]
+    cases hhid : C05.hides i j
+    · simp only [Bool.false_eq_true, if_false]; exact C05.consume_keeps _ i j hhid
+    · simp only [if_true]
+      exact C05.hidden_reads_inactive _ _ (C05.consume_hides (r.setGamepad d) i j hhid)
+  · have hne : ¬ (d = r.device) := fun h => hdev h.symm
+    have hdev' : (r.device == d) = false := by simpa using hdev
+    -- keyboard / mouse inputs: consuming commutes with selecting a gamepad
+    have nonpad : ∀ i, (∀ b, i ≠ .padBtn b) → (∀ x, i ≠ .padAxis x) →
+        ((r.consume i).setGamepad d).value j = (if hidesAt r.device d i j then C05.inactive j else (r.setGamepad d).value j) := by
+      intro i h1 h2
+      have hcomm : (r.consume i).setGamepad d = (r.setGamepad d).consume i := by
+        cases i <;> first | rfl | exact absurd rfl (h1 _) | exact absurd rfl (h2 _)
+      have hh : hidesAt r.device d i j = C05.hides i j := by
+        cases i <;> first | (cases j <;> rfl) | exact absurd rfl (h1 _) | exact absurd rfl (h2 _)
+      rw [hcomm, hh]
+      cases hhid : C05.hides i j
+      · simp only [Bool.false_eq_true, if_false]; exact C05.consume_keeps _ i j hhid
+      · simp only [if_true]
+        exact C05.hidden_reads_inactive _ _ (C05.consume_hides (r.setGamepad d) i j hhid)
+    cases i with
+    | key k m => exact nonpad _ (by intro b h; cases h) (by intro x h; cases h)
+    | mbtn k m => exact nonpad _ (by intro b h; cases h) (by intro x h; cases h)
+    | motion m => exact nonpad _ (by intro b h; cases h) (by intro x h; cases h)
+    | wheel m => exact nonpad _ (by intro b h; cases h) (by intro x h; cases h)
+    | padBtn b =>
+      cases j <;> first | rfl | simp [hidesAt, hdev', C05.hides, C05.sameSource, C05.modsOf, ModKeys.intersects, Reader.consume,
+        Reader.setGamepad, Reader.value, Reader.modKeysPressed, Reader.modsDown, Reader.findPad, List.contains_cons, hne]
+    | padAxis x =>
+      cases j <;> first | rfl | simp [hidesAt, hdev', C05.hides, C05.sameSource, C05.modsOf, ModKeys.intersects, Reader.consume,
+        Reader.setGamepad, Reader.value, Reader.modKeysPressed, Reader.modsDown, Reader.findPad, List.contains_cons, hne]
+
+theorem active_after_consume (r : Reader) (i j : Input) (d : Device) :
+    ((r.consume i).setGamepad d).activeUnconsumed j = (r.setGamepad d).activeUnconsumed j := by
+  cases i <;> cases j <;> rfl
+
+/-- the readers of the two runs are indistinguishable on the kept contexts' inputs `J` under every gamepad selection a kept
+    context uses (`Ds`) -/
+def AgreeOn (J : List Input) (Ds : List Device) (r r' : Reader) : Prop :=
+  ∀ d ∈ Ds, ∀ j ∈ J, (r.setGamepad d).value j = (r'.setGamepad d).value j
+    ∧ (r.setGamepad d).activeUnconsumed j = (r'.setGamepad d).activeUnconsumed j
+
+theorem AgreeOn.refl (J : List Input) (Ds : List Device) (r : Reader) : AgreeOn J Ds r r := fun _ _ _ _ => ⟨rfl, rfl⟩
+
+theorem AgreeOn.setGamepad (J : List Input) (Ds : List Device) (r r' : Reader) (d1 d2 : Device) (h : AgreeOn J Ds r r') :
+    AgreeOn J Ds (r.setGamepad d1) (r'.setGamepad d2) := fun d hd j hj => h d hd j hj
+
+/-- both runs consume the same input under the same gamepad selection -/
+theorem agreeOn_consume_both (J : List Input) (Ds : List Device) (r r' : Reader) (i : Input) (hdev : r.device = r'.device)
+    (h : AgreeOn J Ds r r') : AgreeOn J Ds (r.consume i) (r'.consume i) := by
+  intro d hd j hj
+  obtain ⟨h1, h2⟩ := h d hd j hj
+  refine ⟨?_, by rw [active_after_consume, active_after_consume, h2]⟩
+  rw [value_after_consume, value_after_consume, hdev, h1]
+
+/-- only the run with the extra (deleted) contexts consumes `i`; it masks none of the kept inputs under any kept selection -/
+theorem agreeOn_consume_left (J : List Input) (Ds : List Device) (r r' : Reader) (i : Input)
+    (hdis : ∀ d ∈ Ds, ∀ j ∈ J, hidesAt r.device d i j = false) (h : AgreeOn J Ds r r') : AgreeOn J Ds (r.consume i) r' := by
+  intro d hd j hj
+  obtain ⟨h1, h2⟩ := h d hd j hj
+  refine ⟨?_, by rw [active_after_consume, h2]⟩
+  rw [value_after_consume, hdis d hd j hj]
+  simpa using h1
+
+theorem agreeOn_foldl_both (J : List Input) (Ds : List Device) (is : List Input) :
+    ∀ (r r' : Reader), r.device = r'.device → AgreeOn J Ds r r' →
+      AgreeOn J Ds (is.foldl Reader.consume r) (is.foldl Reader.consume r')
+      ∧ (is.foldl Reader.consume r).device = (is.foldl Reader.consume r').device := by
+  induction is with
+  | nil => intro r r' hd h; exact ⟨h, hd⟩
+  | cons i is ih =>
+    intro r r' hd h
+    exact ih _ _ (by rw [C05.consume_device, C05.consume_device, hd]) (agreeOn_consume_both J Ds r r' i hd h)
+
+theorem agreeOn_foldl_left (J : List Input) (Ds : List Device) (is : List Input) :
+    ∀ (r r' : Reader), (∀ i ∈ is, ∀ d ∈ Ds, ∀ j ∈ J, hidesAt r.device d i j = false) → AgreeOn J Ds r r' →
+      AgreeOn J Ds (is.foldl Reader.consume r) r' := by
+  induction is with
+  | nil => intro r r' _ h; exact h
+  | cons i is ih =>
+    intro r r' hdis h
+    apply ih
+    · intro x hx d hd j hj
+      rw [C05.consume_device]
+      exact hdis x (by simp [hx]) d hd j hj
+    · exact agreeOn_consume_left J Ds r r' i (hdis i (by simp)) h
+
+/-- an action evaluated against two readers that agree on its inputs: the *whole* result is the same, except that each
+    run consumes (the same inputs) from its own reader -/
+theorem update_congr_full (ab : ActionBind) (r r' : Reader) (av : ActionsView) (t : Tick) (es : List Nat)
+    (h : ∀ b ∈ ab.bindings, r.value b.input = r'.value b.input ∧ r.activeUnconsumed b.input = r'.activeUnconsumed b.input)
+    (o : ActionBind.Out) (ho : ab.update r av t es = some o) :
+    ab.update r' av t es = some { o with reader := o.consumed.foldl Reader.consume r' }
+    ∧ o.reader = o.consumed.foldl Reader.consume r := by
+  have hloop : ∀ (bs : List InputBind) (acc : LoopAcc),
+      (∀ b ∈ bs, r.value b.input = r'.value b.input ∧ r.activeUnconsumed b.input = r'.activeUnconsumed b.input) →
+      ab.loopInputs r av t acc bs = ab.loopInputs r' av t acc bs := by
+    intro bs
+    induction bs with
+    | nil => intro acc _; rfl
+    | cons b bs ih =>
+      intro acc hb
+      simp only [ActionBind.loopInputs, stepInput_eq]
+      rw [evalInput_congr r r' av t b (hb b (by simp)).1 (hb b (by simp)).2]
+      cases (evalInput r' av t b).2.1 with
+      | none => simp only; rw [ih _ (fun x hx => hb x (by simp [hx]))]
+      | some e => simp only; rw [ih _ (fun x hx => hb x (by simp [hx]))]
+  unfold ActionBind.update at ho ⊢
+  simp only at ho ⊢
+  rw [← hloop ab.bindings _ h]
+  split at ho
+  · cases ho
+  · rename_i old hold
+    simp only [Option.some.injEq] at ho
+    subst ho
+    simp only [hold]
+    exact ⟨trivial, trivial⟩
+
+/-- the action loop of a kept context, run against two agreeing readers with the same (kept) gamepad selection -/
+theorem kept_loop (J : List Input) (Ds : List Device) (t : Tick) (es : List Nat) :
+    ∀ (bs : List ActionBind) (x x' : Reader) (av : ActionsView) bs1 x1 av1 dl lg,
+      (∀ ab ∈ bs, ∀ b ∈ ab.bindings, b.input ∈ J) → x.device = x'.device → x.device ∈ Ds → AgreeOn J Ds x x' →
+      ContextInstance.loopActions x av t es bs = some (bs1, x1, av1, dl, lg) →
+      ∃ x1', ContextInstance.loopActions x' av t es bs = some (bs1, x1', av1, dl, lg)
+        ∧ x1.device = x1'.device ∧ AgreeOn J Ds x1 x1' := by
+  intro bs
+  induction bs with
+  | nil =>
+    intro x x' av bs1 x1 av1 dl lg _ hd _ h hl
+    simp only [ContextInstance.loopActions, Option.some.injEq, Prod.mk.injEq] at hl
+    obtain ⟨rfl, rfl, rfl, rfl, rfl⟩ := hl
+    exact ⟨x', rfl, hd, h⟩
+  | cons ab rest ih =>
+    intro x x' av bs1 x1 av1 dl lg hJ hd hDs h hl
+    simp only [ContextInstance.loopActions] at hl
+    split at hl
+    · cases hl
+    · rename_i o ho
+      split at hl
+      · cases hl
+      · rename_i rest1 x2 av2 dl2 lg2 hrest
+        simp only [Option.some.injEq, Prod.mk.injEq] at hl
+        obtain ⟨rfl, rfl, rfl, rfl, rfl⟩ := hl
+        have hag : ∀ b ∈ ab.bindings, x.value b.input = x'.value b.input ∧ x.activeUnconsumed b.input = x'.activeUnconsumed b.input := by
+          intro b hb
+          have := h x.device hDs b.input (hJ ab (by simp) b hb)
+          have e1 : x.setGamepad x.device = x := rfl
+          have e2 : x'.setGamepad x.device = x' := by rw [hd]; rfl
+          rw [e1, e2] at this
+          exact this
+        obtain ⟨ho', hreader⟩ := update_congr_full ab x x' av t es hag o ho
+        obtain ⟨hboth, hdev2⟩ := agreeOn_foldl_both J Ds o.consumed x x' hd h
+        have hdsafter : (o.consumed.foldl Reader.consume x).device ∈ Ds := by rw [C05.foldl_consume_device]; exact hDs
+        rw [← hreader] at hboth hdev2 hdsafter
+        obtain ⟨x1', hl', hd', hag'⟩ := ih o.reader (o.consumed.foldl Reader.consume x') o.actions _ _ _ _ _
+          (fun a ha => hJ a (by simp [ha])) hdev2 hdsafter hboth hrest
+        refine ⟨x1', ?_, hd', hag'⟩
+        simp only [ContextInstance.loopActions, ho', hl']
+
+/-- the inputs a context instance binds -/
+def instInputs (ci : ContextInstance) : List Input := ci.bindings.flatMap (fun ab => ab.bindings.map (·.input))
+
+theorem mem_instInputs (ci : ContextInstance) (ab : ActionBind) (b : InputBind) (ha : ab ∈ ci.bindings) (hb : b ∈ ab.bindings) :
+    b.input ∈ instInputs ci := by
+  simp only [instInputs, List.mem_flatMap, List.mem_map]
+  exact ⟨ab, ha, b, hb, rfl⟩
+
+/-- the action loop of a deleted (input-disjoint) context, run on the left only -/
+theorem deleted_loop (J : List Input) (Ds : List Device) (t : Tick) (es : List Nat) (x' : Reader) (dev : Device) :
+    ∀ (bs : List ActionBind) (x : Reader) (av : ActionsView) bs1 x1 av1 dl lg,
+      x.device = dev →
+      (∀ ab ∈ bs, ∀ b ∈ ab.bindings, ∀ d ∈ Ds, ∀ j ∈ J, hidesAt dev d b.input j = false) → AgreeOn J Ds x x' →
+      ContextInstance.loopActions x av t es bs = some (bs1, x1, av1, dl, lg) →
+      x1.device = dev ∧ AgreeOn J Ds x1 x' := by
+  intro bs
+  induction bs with
+  | nil =>
+    intro x av bs1 x1 av1 dl lg hd _ h hl
+    simp only [ContextInstance.loopActions, Option.some.injEq, Prod.mk.injEq] at hl
+    obtain ⟨_, rfl, _, _, _⟩ := hl
+    exact ⟨hd, h⟩
+  | cons ab rest ih =>
+    intro x av bs1 x1 av1 dl lg hd hdis h hl
+    simp only [ContextInstance.loopActions] at hl
+    split at hl
+    · cases hl
+    · rename_i o ho
+      split at hl
+      · cases hl
+      · rename_i rest1 x2 av2 dl2 lg2 hrest
+        simp only [Option.some.injEq, Prod.mk.injEq] at hl
+        obtain ⟨_, rfl, _, _, _⟩ := hl
+        obtain ⟨_, _, _, hreader, _⟩ := C05.update_consumes ab x av t es o ho
+        have hsub := consumed_subset_bound ab x av t es o ho
+        have hleft : AgreeOn J Ds o.reader x' := by
+          rw [hreader]
+          apply agreeOn_foldl_left J Ds _ _ _ _ h
+          intro i hi d hdd j hj
+          obtain ⟨b, hb, rfl⟩ := List.mem_map.mp (hsub i hi)
+          rw [hd]
+          exact hdis ab (by simp) b hb d hdd j hj
+        have hdev : o.reader.device = dev := by rw [hreader, C05.foldl_consume_device, hd]
+        exact ih o.reader o.actions _ _ _ _ _ hdev (fun a ha => hdis a (by simp [ha])) hleft hrest
+
+/-- a kept context instance evaluated in both runs: identical new instance, deliveries and invocation log -/
+theorem kept_instance (J : List Input) (Ds : List Device) (ci : ContextInstance) (r r' : Reader) (t : Tick) (es : List Nat)
+    (hJ : ∀ i ∈ instInputs ci, i ∈ J) (hDs : ci.gamepad ∈ Ds) (h : AgreeOn J Ds r r')
+    (o : ContextInstance.Out) (ho : ci.update r t es = some o) :
+    ∃ o', ci.update r' t es = some o' ∧ o'.inst = o.inst ∧ o'.deliveries = o.deliveries ∧ o'.log = o.log
+      ∧ AgreeOn J Ds o.reader o'.reader := by
+  unfold ContextInstance.update at ho ⊢
+  split at ho
+  · cases ho
+  · rename_i bs1 x1 av1 dl lg hl
+    simp only [Option.some.injEq] at ho
+    subst ho
+    obtain ⟨x1', hl', _, hag⟩ := kept_loop J Ds t es ci.bindings (r.setGamepad ci.gamepad) (r'.setGamepad ci.gamepad) ci.actions
+      _ _ _ _ _ (fun ab ha b hb => hJ _ (mem_instInputs ci ab b ha hb)) rfl hDs (h.setGamepad J Ds r r' _ _) hl
+    exact ⟨{ inst := { ci with bindings := bs1, actions := av1 }, reader := x1', deliveries := dl, log := lg },
+      by simp only [hl'], rfl, rfl, rfl, hag⟩
+
+/-- a deleted context instance evaluated in the left run only leaves the readers indistinguishable on the kept inputs -/
+theorem deleted_instance (J : List Input) (Ds : List Device) (ci : ContextInstance) (r r' : Reader) (t : Tick) (es : List Nat)
+    (hdis : ∀ i ∈ instInputs ci, ∀ d ∈ Ds, ∀ j ∈ J, hidesAt ci.gamepad d i j = false) (h : AgreeOn J Ds r r')
+    (o : ContextInstance.Out) (ho : ci.update r t es = some o) : AgreeOn J Ds o.reader r' := by
+  unfold ContextInstance.update at ho
+  split at ho
+  · cases ho
+  · rename_i bs1 x1 av1 dl lg hl
+    simp only [Option.some.injEq] at ho
+    subst ho
+    exact (deleted_loop J Ds t es r' ci.gamepad ci.bindings (r.setGamepad ci.gamepad) ci.actions _ _ _ _ _ rfl
+      (fun ab ha b hb d hd j hj => hdis _ (mem_instInputs ci ab b ha hb) d hd j hj)
+      (fun d hd j hj => h d hd j hj) hl).2
+
+/-! ### lifting over the registry -/
+
+/-- the update of one group -/
+def groupStep (t : Tick) (r : Reader) : Group → Option (Group × Reader × List Delivery × List Inv)
+  | .exclusive ty is =>
+    match Registry.updateExclusive r t is with
+    | none => none
+    | some (is', r', dl, lg) => some (.exclusive ty is', r', dl, lg)
+  | .shared ty es ctx =>
+    match ctx.update r t es with
+    | none => none
+    | some oc => some (.shared ty es oc.inst, oc.reader, oc.deliveries, oc.log)
+
+theorem update_cons (t : Tick) (r : Reader) (g : Group) (rest : Registry) :
+    Registry.update r t (g :: rest) =
+      match groupStep t r g with
+      | none => none
+      | some (g', r1, dl, lg) =>
+        match Registry.update r1 t rest with
+        | none => none
+        | some o => some { o with reg := g' :: o.reg, deliveries := dl ++ o.deliveries, log := lg ++ o.log } := by
+  cases g with
+  | exclusive ty is =>
+    simp only [Registry.update, groupStep]
+    cases Registry.updateExclusive r t is with
+    | none => rfl
+    | some x => obtain ⟨a, b, c, d⟩ := x; rfl
+  | shared ty es ctx =>
+    simp only [Registry.update, groupStep]
+    cases ctx.update r t es <;> rfl
+
+/-- which groups are kept is decided by the context type -/
+def keepG (keep : Nat → Bool) (g : Group) : Bool := keep g.ty.id
+
+/-- what the kept contexts deliver and invoke in the full run -/
+def keptRun (keep : Nat → Bool) (t : Tick) : Reader → Registry → List Delivery × List Inv
+  | _, [] => ([], [])
+  | r, g :: rest =>
+    match groupStep t r g with
+    | none => ([], [])
+    | some (_, r1, dl, lg) =>
+      let rec' := keptRun keep t r1 rest
+      if keepG keep g then (dl ++ rec'.1, lg ++ rec'.2) else rec'
+
+theorem groupStep_ty (t : Tick) (r : Reader) (g g' : Group) (r1 : Reader) (dl : List Delivery) (lg : List Inv)
+    (h : groupStep t r g = some (g', r1, dl, lg)) : g'.ty = g.ty := by
+  cases g with
+  | exclusive ty is =>
+    simp only [groupStep] at h
+    split at h
+    · cases h
+    · simp only [Option.some.injEq, Prod.mk.injEq] at h; rw [← h.1]; rfl
+  | shared ty es ctx =>
+    simp only [groupStep] at h
+    split at h
+    · cases h
+    · simp only [Option.some.injEq, Prod.mk.injEq] at h; rw [← h.1]; rfl
+
+theorem kept_exclusive (J : List Input) (Ds : List Device) (t : Tick) :
+    ∀ (is : List (Nat × ContextInstance)) (r r' : Reader) is1 r1 dl lg,
+      (∀ p ∈ is, (∀ i ∈ instInputs p.2, i ∈ J) ∧ p.2.gamepad ∈ Ds) → AgreeOn J Ds r r' →
+      Registry.updateExclusive r t is = some (is1, r1, dl, lg) →
+      ∃ r1', Registry.updateExclusive r' t is = some (is1, r1', dl, lg) ∧ AgreeOn J Ds r1 r1' := by
+  intro is
+  induction is with
+  | nil =>
+    intro r r' is1 r1 dl lg _ h hu
+    simp only [Registry.updateExclusive, Option.some.injEq, Prod.mk.injEq] at hu
+    obtain ⟨rfl, rfl, rfl, rfl⟩ := hu
+    exact ⟨r', rfl, h⟩
+  | cons p ps ih =>
+    intro r r' is1 r1 dl lg hk h hu
+    obtain ⟨e, ctx⟩ := p
+    simp only [Registry.updateExclusive] at hu
+    split at hu
+    · cases hu
+    · rename_i o ho
+      split at hu
+      · cases hu
+      · rename_i rest1 r2 dl2 lg2 hrest
+        simp only [Option.some.injEq, Prod.mk.injEq] at hu
+        obtain ⟨rfl, rfl, rfl, rfl⟩ := hu
+        obtain ⟨o', ho', hi, hd, hl, hag⟩ := kept_instance J Ds ctx r r' t [e] (hk (e, ctx) (by simp)).1 (hk (e, ctx) (by simp)).2 h o ho
+        obtain ⟨r1', hr', hag'⟩ := ih o.reader o'.reader _ _ _ _ (fun q hq => hk q (by simp [hq])) hag hrest
+        refine ⟨r1', ?_, hag'⟩
+        simp only [Registry.updateExclusive, ho', hr', hi, hd, hl]
+
+theorem deleted_exclusive (J : List Input) (Ds : List Device) (t : Tick) (r' : Reader) :
+    ∀ (is : List (Nat × ContextInstance)) (r : Reader) is1 r1 dl lg,
+      (∀ p ∈ is, ∀ i ∈ instInputs p.2, ∀ d ∈ Ds, ∀ j ∈ J, hidesAt p.2.gamepad d i j = false) → AgreeOn J Ds r r' →
+      Registry.updateExclusive r t is = some (is1, r1, dl, lg) → AgreeOn J Ds r1 r' := by
+  intro is
+  induction is with
+  | nil =>
+    intro r is1 r1 dl lg _ h hu
+    simp only [Registry.updateExclusive, Option.some.injEq, Prod.mk.injEq] at hu
+    obtain ⟨_, rfl, _, _⟩ := hu
+    exact h
+  | cons p ps ih =>
+    intro r is1 r1 dl lg hk h hu
+    obtain ⟨e, ctx⟩ := p
+    simp only [Registry.updateExclusive] at hu
+    split at hu
+    · cases hu
+    · rename_i o ho
+      split at hu
+      · cases hu
+      · rename_i rest1 r2 dl2 lg2 hrest
+        simp only [Option.some.injEq, Prod.mk.injEq] at hu
+        obtain ⟨_, rfl, _, _⟩ := hu
+        have := deleted_instance J Ds ctx r r' t [e] (hk (e, ctx) (by simp)) h o ho
+        exact ih o.reader _ _ _ _ (fun q hq => hk q (by simp [hq])) this hrest
+
+/-- the kept contexts' inputs and gamepad selections are inside `J` / `Ds` -/
+def KeptOK (J : List Input) (Ds : List Device) (g : Group) : Prop :=
+  ∀ ci ∈ g.instances, (∀ i ∈ instInputs ci, i ∈ J) ∧ ci.gamepad ∈ Ds
+
+/-- a deleted context is input-disjoint from the kept ones: under no kept gamepad selection does any of its inputs mask a
+    kept input (no shared key, button, motion, wheel or modifier key; gamepad inputs only under a different selection) -/
+def DeletedOK (J : List Input) (Ds : List Device) (g : Group) : Prop :=
+  ∀ ci ∈ g.instances, ∀ i ∈ instInputs ci, ∀ d ∈ Ds, ∀ j ∈ J, hidesAt ci.gamepad d i j = false
+
+theorem kept_group (J : List Input) (Ds : List Device) (t : Tick) (g : Group) (r r' : Reader) (hk : KeptOK J Ds g)
+    (h : AgreeOn J Ds r r') (g1 : Group) (r1 : Reader) (dl : List Delivery) (lg : List Inv)
+    (hs : groupStep t r g = some (g1, r1, dl, lg)) :
+    ∃ r1', groupStep t r' g = some (g1, r1', dl, lg) ∧ AgreeOn J Ds r1 r1' := by
+  cases g with
+  | exclusive ty is =>
+    simp only [groupStep] at hs ⊢
+    split at hs
+    · cases hs
+    · rename_i is1 r2 dl2 lg2 hu
+      simp only [Option.some.injEq, Prod.mk.injEq] at hs
+      obtain ⟨rfl, rfl, rfl, rfl⟩ := hs
+      have hk' : ∀ p ∈ is, (∀ i ∈ instInputs p.2, i ∈ J) ∧ p.2.gamepad ∈ Ds := by
+        intro p hp
+        exact hk p.2 (by simp only [Group.instances, List.mem_map]; exact ⟨p, hp, rfl⟩)
+      obtain ⟨r1', hr', hag⟩ := kept_exclusive J Ds t is r r' _ _ _ _ hk' h hu
+      exact ⟨r1', by simp only [hr'], hag⟩
+  | shared ty es ctx =>
+    simp only [groupStep] at hs ⊢
+    split at hs
+    · cases hs
+    · rename_i oc hoc
+      simp only [Option.some.injEq, Prod.mk.injEq] at hs
+      obtain ⟨rfl, rfl, rfl, rfl⟩ := hs
+      have hc := hk ctx (by simp [Group.instances])
+      obtain ⟨o', ho', hi, hd, hl, hag⟩ := kept_instance J Ds ctx r r' t es hc.1 hc.2 h oc hoc
+      exact ⟨o'.reader, by simp only [ho', hi, hd, hl], hag⟩
+
+theorem deleted_group (J : List Input) (Ds : List Device) (t : Tick) (g : Group) (r r' : Reader) (hk : DeletedOK J Ds g)
+    (h : AgreeOn J Ds r r') (g1 : Group) (r1 : Reader) (dl : List Delivery) (lg : List Inv)
+    (hs : groupStep t r g = some (g1, r1, dl, lg)) : AgreeOn J Ds r1 r' := by
+  cases g with
+  | exclusive ty is =>
+    simp only [groupStep] at hs
+    split at hs
+    · cases hs
+    · rename_i is1 r2 dl2 lg2 hu
+      simp only [Option.some.injEq, Prod.mk.injEq] at hs
+      obtain ⟨_, rfl, _, _⟩ := hs
+      have hk' : ∀ p ∈ is, ∀ i ∈ instInputs p.2, ∀ d ∈ Ds, ∀ j ∈ J, hidesAt p.2.gamepad d i j = false := by
+        intro p hp
+        exact hk p.2 (by simp only [Group.instances, List.mem_map]; exact ⟨p, hp, rfl⟩)
+      exact deleted_exclusive J Ds t r' is r _ _ _ _ hk' h hu
+  | shared ty es ctx =>
+    simp only [groupStep] at hs
+    split at hs
+    · cases hs
+    · rename_i oc hoc
+      simp only [Option.some.injEq, Prod.mk.injEq] at hs
+      obtain ⟨_, rfl, _, _⟩ := hs
+      exact deleted_instance J Ds ctx r r' t es (hk ctx (by simp [Group.instances])) h oc hoc
+
+/-- (5) **non-interference over the whole registry**: run the frame update on a registry `reg` and on the sub-registry
+    obtained by deleting the input-disjoint context types (`keep` false), from readers that agree on the kept contexts'
+    inputs (in particular from the same raw input with an arbitrary amount of activity on inputs nobody binds). Then
+    the second run succeeds as well, the kept groups end in the *same* state (all action data, all condition / modifier
+    states), the kept contexts deliver the same events and invoke the same conditions and modifiers in the same order,
+    and the readers still agree — for any interleaving of kept and deleted groups in the evaluation order. -/
+theorem registry_noninterference (J : List Input) (Ds : List Device) (keep : Nat → Bool) (t : Tick) :
+    ∀ (reg : Registry) (r r' : Reader) (o : Registry.Out),
+      (∀ g ∈ reg, keepG keep g = true → KeptOK J Ds g) → (∀ g ∈ reg, keepG keep g = false → DeletedOK J Ds g) →
+      AgreeOn J Ds r r' → Registry.update r t reg = some o →
+      ∃ o', Registry.update r' t (reg.filter (keepG keep)) = some o'
+        ∧ o'.reg = o.reg.filter (keepG keep)
+        ∧ o'.deliveries = (keptRun keep t r reg).1 ∧ o'.log = (keptRun keep t r reg).2
+        ∧ AgreeOn J Ds o.reader o'.reader := by
+  intro reg
+  induction reg with
+  | nil =>
+    intro r r' o _ _ h hu
+    simp only [Registry.update, Option.some.injEq] at hu
+    subst hu
+    exact ⟨_, rfl, rfl, rfl, rfl, h⟩
+  | cons g rest ih =>
+    intro r r' o hK hD h hu
+    rw [update_cons] at hu
+    cases hs : groupStep t r g with
+    | none => simp [hs] at hu
+    | some x =>
+      obtain ⟨g1, r1, dl, lg⟩ := x
+      simp only [hs] at hu
+      cases hrest : Registry.update r1 t rest with
+      | none => simp [hrest] at hu
+      | some orest =>
+        simp only [hrest, Option.some.injEq] at hu
+        subst hu
+        have hty := groupStep_ty t r g g1 r1 dl lg hs
+        have hkeep1 : keepG keep g1 = keepG keep g := by simp [keepG, hty]
+        by_cases hk : keepG keep g = true
+        · obtain ⟨r1', hs', hag⟩ := kept_group J Ds t g r r' (hK g (by simp) hk) h g1 r1 dl lg hs
+          obtain ⟨o', ho', h1, h2, h3, h4⟩ := ih r1 r1' orest (fun x hx => hK x (by simp [hx])) (fun x hx => hD x (by simp [hx])) hag hrest
+          refine ⟨{ o' with reg := g1 :: o'.reg, deliveries := dl ++ o'.deliveries, log := lg ++ o'.log }, ?_, ?_, ?_, ?_, h4⟩
+          · simp only [List.filter_cons, hk, if_true]
+            rw [update_cons, hs']
+            simp only [ho']
+          · simp only [List.filter_cons, hkeep1, hk, if_true, h1]
+          · simp only [keptRun, hs, hk, if_true, h2]
+          · simp only [keptRun, hs, hk, if_true, h3]
+        · have hk' : keepG keep g = false := by simpa using hk
+          have hag := deleted_group J Ds t g r r' (hD g (by simp) hk') h g1 r1 dl lg hs
+          obtain ⟨o', ho', h1, h2, h3, h4⟩ := ih r1 r' orest (fun x hx => hK x (by simp [hx])) (fun x hx => hD x (by simp [hx])) hag hrest
+          refine ⟨o', ?_, ?_, ?_, ?_, h4⟩
+          · simp only [List.filter_cons, hk', Bool.false_eq_true, if_false]; exact ho'
+          · simp only [List.filter_cons, hkeep1, hk', Bool.false_eq_true, if_false, h1]
+          · simp only [keptRun, hs, hk', Bool.false_eq_true, if_false, h2]
+          · simp only [keptRun, hs, hk', Bool.false_eq_true, if_false, h3]
+
 
 end BEI.Props.C17
